@@ -205,3 +205,207 @@ theorem chainWork_sound (D : List BlockAbs) (X : List Hash) :
 
 end Lemmas
 end BV.C02
+
+namespace BV.C02
+namespace Lemmas
+open Spec
+
+/-! ### InvalidateBlock moves the active chain off the invalidated block -/
+
+theorem filter_eq_self_of_all {α : Type} (p : α → Bool) (l : List α) (h : ∀ x ∈ l, p x = true) : l.filter p = l := by
+  induction l with
+  | nil => rfl
+  | cons a r ih =>
+    simp only [List.filter, h a (by simp)]
+    rw [ih (fun x hx => h x (by simp [hx]))]
+
+theorem takeWhile_all_of_length {α : Type} (p : α → Bool) (l : List α) (h : ¬ (l.takeWhile p).length < l.length) :
+    ∀ x ∈ l, p x = true := by
+  induction l with
+  | nil => intro x hx; cases hx
+  | cons a r ih =>
+    by_cases ha : p a = true
+    · simp only [List.takeWhile, ha, List.length_cons] at h
+      intro x hx
+      cases hx with
+      | head => exact ha
+      | tail _ hx' => exact ih (by omega) x hx'
+    · have ha' : p a = false := by simpa using ha
+      simp [List.takeWhile, ha'] at h
+
+theorem mem_takeWhile_imp {α : Type} (p : α → Bool) (l : List α) {x : α} (h : x ∈ l.takeWhile p) : p x = true := by
+  induction l with
+  | nil => cases h
+  | cons a r ih =>
+    by_cases ha : p a = true
+    · simp only [List.takeWhile, ha] at h
+      cases h with
+      | head => exact ha
+      | tail _ h' => exact ih h'
+    · have ha' : p a = false := by simpa using ha
+      simp [List.takeWhile, ha'] at h
+
+theorem foldl_setSt_status {l : List Hash} {f : Status → Status} (s : State) (k : Hash) (hk : k ∉ l) :
+    ((l.foldl (fun s x => s.setSt x f) s).status k) = s.status k ∧
+    (l.foldl (fun s x => s.setSt x f) s).best = s.best ∧ (l.foldl (fun s x => s.setSt x f) s).idx = s.idx := by
+  induction l generalizing s with
+  | nil => exact ⟨rfl, rfl, rfl⟩
+  | cons a r ih =>
+    simp only [List.foldl_cons]
+    have hka : a ≠ k := by intro e; apply hk; simp [e]
+    obtain ⟨h1, h2, h3⟩ := ih (s.setSt a f) (by intro hm; apply hk; simp [hm])
+    refine ⟨?_, h2, h3⟩
+    rw [h1, status_setSt]; simp [hka]
+
+theorem not_mem_tail_dropWhile {l : List Hash} (hnd : l.Nodup) (h : Hash) :
+    h ∉ l.drop ((l.takeWhile (· != h)).length + 1) := by
+  induction l with
+  | nil => simp
+  | cons a r ih =>
+    rw [List.nodup_cons] at hnd
+    by_cases e : a = h
+    · subst e
+      have : ((a :: r).takeWhile (· != a)) = [] := by simp [List.takeWhile]
+      rw [this]
+      simpa using hnd.1
+    · have e' : (a != h) = true := by simpa using e
+      simp only [List.takeWhile, e', List.length_cons, List.drop_succ_cons]
+      exact ih hnd.2
+
+/-- Invalidating a block of the active chain (whose members are not marked invalid and occur once —
+true after every delivery history, see `views_agree`) always ends with the invalidated block OFF the
+active chain, whatever happens with the attempt to activate another tip. -/
+theorem invalidate_excludes (s : State) (h : Hash) (c : Option Hash) (n : Node)
+    (hl : lookup s.idx h = some n) (hh : n.height ≠ 0)
+    (hnd : s.best.Nodup) (hk : ∀ x ∈ s.best, (s.status x).knownInvalid = false)
+    (hb : s.best.contains h = true) :
+    (invalidate s h c).1.best.contains h = false := by
+  have hhb : h ∈ s.best := by simpa using hb
+  have hkh : (s.status h).knownInvalid = false := hk h hhb
+  unfold invalidate
+  simp only [hl]
+  have hh' : (n.height == 0) = false := by simpa using hh
+  simp only [hh', Bool.false_eq_true, if_false, hkh]
+  generalize hs0 : s.setSt h (fun t => { t with failed := true, valid := false }) = s0
+  have hb0 : s0.best = s.best := by rw [← hs0]; rfl
+  have hi0 : s0.idx = s.idx := by rw [← hs0]; rfl
+  have hst0 : ∀ k, s0.status k = if h = k then { s.status h with failed := true, valid := false } else s.status k := by
+    intro k; rw [← hs0, status_setSt]
+  simp only [hb0, hb, Bool.not_true, Bool.false_eq_true, if_false]
+  -- nothing is filtered out of the detach list
+  have hfil : (s.best.takeWhile (· != h)).filter (fun x => !(s0.status x).knownInvalid) = s.best.takeWhile (· != h) := by
+    apply filter_eq_self_of_all
+    intro x hx
+    have hxb : x ∈ s.best := (List.takeWhile_sublist _).subset hx
+    have hxh : x ≠ h := by
+      have := mem_takeWhile_imp _ _ hx
+      simpa using this
+    rw [hst0]; simp only [Ne.symm hxh, if_false]
+    rw [hk x hxb]; rfl
+  rw [hfil]
+  generalize hab : s.best.takeWhile (· != h) = above
+  have habh : h ∉ above := by
+    rw [← hab]; intro hm
+    have := mem_takeWhile_imp _ _ hm
+    simp at this
+  obtain ⟨hs1st, hs1b, hs1i⟩ := foldl_setSt_status (f := fun t => { t with invalidAnc := true, valid := false }) s0 h habh
+  generalize (above.foldl (fun s x => s.setSt x (fun t => { t with invalidAnc := true, valid := false })) s0) = s1 at hs1st hs1b hs1i ⊢
+  -- the detach step
+  have hre : ∃ s2, reorganize s1 (above ++ [h]) [] = (s2, VR.ok) ∧
+      s2.best = s1.best.drop (above ++ [h]).length ∧ (∀ k, s2.status k = s1.status k) := by
+    refine ⟨(reorganize s1 (above ++ [h]) []).1, ?_, ?_, ?_⟩
+    · simp [reorganize, verify]
+    · simp [reorganize, verify]
+    · intro k; simp [reorganize, verify, State.status]
+  obtain ⟨s2, hre2, hb2', hst2'⟩ := hre
+  rw [hre2]
+  simp only []
+  have hb2 : s2.best = s.best.drop ((s.best.takeWhile (· != h)).length + 1) := by
+    rw [hb2']; simp only [hs1b, hb0, List.length_append, List.length_cons, List.length_nil, hab]
+  have hnot2 : h ∉ s2.best := by rw [hb2]; exact not_mem_tail_dropWhile hnd h
+  have hst2 : (s2.status h).knownInvalid = true := by
+    rw [hst2', hs1st, hst0]; simp [Status.knownInvalid]
+  have hfin : ∀ s' : State, s'.best = s2.best → s'.best.contains h = false := by
+    intro s' e; rw [e]; simpa using hnot2
+  split
+  · exact hfin s2 rfl
+  · rename_i t _
+    split
+    · exact hfin s2 rfl
+    · -- the attempt to activate tip t
+      have hsc := sameChain_getReorgNodes s2 t
+      have hfe := flagExt_getReorgNodes s2 t
+      -- the attach list never contains h
+      have hatt : ∀ m ∈ (getReorgNodes s2 t).2.2, m.blk.hash ≠ h := by
+        unfold getReorgNodes
+        split
+        · intro m hm; cases hm
+        · simp only []
+          split
+          · intro m hm; cases hm
+          · rename_i hgood
+            intro m hm e
+            have hm' : m ∈ branch s2.best s2.idx t.blk.hash := List.mem_reverse.mp hm
+            have := takeWhile_all_of_length _ _ hgood m hm'
+            rw [e, hst2] at this
+            cases this
+      generalize getReorgNodes s2 t = g at hsc hfe hatt ⊢
+      obtain ⟨s3, detach, attach⟩ := g
+      simp only [] at hsc hfe hatt ⊢
+      unfold reorganize
+      have hv := sameChain_verify s3 attach
+      generalize verify s3 attach = vres at hv ⊢
+      obtain ⟨s4, vr⟩ := vres
+      cases vr with
+      | rule => simp only []; exact hfin s4 (hv.2.1.trans hsc.2.1)
+      | other => simp only []; exact hfin s4 (hv.2.1.trans hsc.2.1)
+      | ok =>
+        simp only []
+        have hb4 : s4.best = s2.best := hv.2.1.trans hsc.2.1
+        simp only [List.contains_eq_mem, List.mem_append, List.mem_reverse, List.mem_map, decide_eq_false_iff_not,
+          not_or]
+        refine ⟨?_, ?_⟩
+        · rintro ⟨m, hm, e⟩; exact hatt m hm e
+        · intro hm
+          apply hnot2
+          rw [← hb4]
+          exact List.mem_of_mem_drop hm
+
+theorem pathOK_nodup {U D : List BlockAbs} {s : State} (hc : CInv U D s) {l : List Hash} (hp : PathOK s l) :
+    l.Nodup := by
+  have hpl := fun l' (hp' : PathOK s l') => (pathOK_plain hc hp').2.2.1
+  induction hp with
+  | base => simp
+  | @cons c p r n h0 hl hpar hd hv hr ih =>
+    rw [List.nodup_cons]
+    refine ⟨?_, ih⟩
+    intro hm
+    obtain ⟨j, hj⟩ := List.mem_iff_getElem?.mp hm
+    obtain ⟨n1, hn1, hh1⟩ := hpl _ (PathOK.cons h0 hl hpar hd hv hr) 0 c (by simp)
+    obtain ⟨n2, hn2, hh2⟩ := hpl _ hr j c hj
+    rw [hn1] at hn2; cases hn2
+    simp only [List.length_cons] at hh1 hh2
+    omega
+
+/-- after a delivery history, invalidating any non-genesis block of the active chain takes it off
+the active chain -/
+theorem run_invalidate_excludes (ops : List Op) (h : Hash) (c : Option Hash) (hdo : deliveryOnly ops)
+    (hwf : WF (mentioned ops)) (hb : (run ops).best.contains h = true) (h0 : h ≠ 0) :
+    (run (ops ++ [.invalidate h c])).best.contains h = false := by
+  obtain ⟨D', _, hi⟩ := run_inv ops hdo hwf
+  have hr : run (ops ++ [.invalidate h c]) = (step (run ops) (.invalidate h c)).1 := by
+    unfold run; rw [runFrom_append]; rfl
+  have hhb : h ∈ (run ops).best := by simpa using hb
+  obtain ⟨_, _, _, hflags⟩ := pathOK_plain hi.c hi.c.path
+  obtain ⟨n, hl⟩ := hi.c.dIdx h (hflags h hhb).1
+  obtain ⟨_, p, _, _, hht⟩ := idxOK_node hi.c.idx hl h0
+  have := invalidate_excludes (run ops) h c n hl (by omega) (pathOK_nodup hi.c hi.c.path)
+    (fun x hx => (hflags x hx).2.2) hb
+  rw [hr]
+  simp only [step]
+  generalize invalidate (run ops) h c = r at this ⊢
+  obtain ⟨s1, ok⟩ := r
+  cases ok <;> exact this
+
+end Lemmas
+end BV.C02
